@@ -5,6 +5,7 @@ import (
 
 	"github.com/vipnode/vipnode/v2/ethnode"
 	"github.com/vipnode/vipnode/v2/internal/verifapi"
+	"github.com/vipnode/vipnode/v2/internal/verifmodels/faultstore"
 	"github.com/vipnode/vipnode/v2/internal/verifmodels/sigs"
 	"github.com/vipnode/vipnode/v2/jsonrpc2"
 	"github.com/vipnode/vipnode/v2/pool"
@@ -59,15 +60,30 @@ func VerifC05Endpoints() {
 	// wallet endpoints (5,6) and node endpoints use different identities
 	sameIdentity := (first == 5 || first == 6) == (second == 5 || second == 6)
 	n1 := pool.VerifFreshNonce()
+	// noncefault=1: the store may fail while checking and recording the first request's nonce (a
+	// storage fault, nothing recorded): the request may then be refused, but if it is honoured all the
+	// same its nonce counts as used
+	fs := faultstore.New(w.db)
+	fault := verifapi.Param("noncefault", 0) == 1 && verifapi.Bool("nonce-store-fault")
+	if verifapi.Param("noncefault", 0) == 1 {
+		w.p.Store, w.pay.NonceStore = fs, fs
+	}
+	if fault {
+		fs.Arm(0, "CheckAndSaveNonce")
+	}
 	err1 := verifSubmit(w, first, n1, svc)
-	verifapi.Assert(!pool.VerifIsVerifyFailed(err1), "c05.ep.fresh-request-accepted")
+	fs.Disarm()
+	honoured1 := !pool.VerifIsVerifyFailed(err1)
+	if !fault {
+		verifapi.Assert(honoured1, "c05.ep.fresh-request-accepted")
+	}
 	n2 := verifapi.Int64("nonce2")
 	now := verifapi.Now().UnixNano()
 	verifapi.Assume(n2 <= now+1000000000)
 	err2 := verifSubmit(w, second, n2, svc)
 	verifapi.Reach("c05.ep.second")
 	window := int64(900000000000)
-	if sameIdentity && n2 <= n1 {
+	if sameIdentity && n2 <= n1 && honoured1 {
 		verifapi.Assert(pool.VerifIsVerifyFailed(err2), "c05.ep.replayed-or-lower-nonce-refused")
 	}
 	if n2 < now-window {
@@ -81,8 +97,10 @@ func VerifC05Endpoints() {
 // VerifC05PoolRace: two copies of one signed request delivered at the same time are honoured at most once.
 func VerifC05PoolRace() {
 	w := verifSmallWorld()
+	w.pay.Settle = verifSettleStub(w, "settlefails")
 	svc := &pool.VerifHost{Name: "conn", Addr: "192.0.2.9:1"}
-	ep := []int{1, 2}[verifapi.Choose("endpoint", 2)]
+	// keep-alive and peer request (node-signed), account linking and withdrawal (wallet-signed)
+	ep := []int{1, 2, 5, 6}[verifapi.Choose("endpoint", 4)]
 	nonce := pool.VerifFreshNonce()
 	done := make(chan error, 2)
 	for i := 0; i < 2; i++ {
